@@ -81,6 +81,12 @@ def run(c):
             o = json.loads(line)
             if o["k"] == "catalogue":
                 c.coverage["usable_pattern_templates"] = o["nodes"]
+                for sk in o.get("skipped") or []:
+                    if "load panics" in sk:
+                        # gogrep compiles the pattern, so the rule set {this rule} must load and be dispatched
+                        c.fail("oracle", "Load panics on a rule whose pattern gogrep compiles: " + sk,
+                               input={"rules": "m.Match(`%s`).Report(`one`)" % sk.split(": load panics")[0]},
+                               expected="the rule loads and its matches are reported", observed=sk)
                 if o["nodes"] < 60:
                     c.obligation("harness:pattern-catalogue", False, "only %d pattern templates load: %s" % (o["nodes"], o.get("skipped")))
                 continue
